@@ -5,6 +5,7 @@ import PsVerif.Model.Premium
 import PsVerif.Model.Version
 import PsVerif.Model.Upgrade
 import PsVerif.Model.Wire
+import PsVerif.Model.Admit
 /- line-protocol front end for the pure layer -/
 namespace PsVerif.Driver
 open PsVerif PsVerif.Model
@@ -116,6 +117,21 @@ def handlePure : List String → Option String
       | .none => none
     let hs := if awaitOk then (go 40 h2 []).reverse else []
     pure (if hs.isEmpty then "none" else ",".intercalate (hs.map toString))
+  | ["admit", allowNew, btcOn, lbtcOn, minMsat, acceptAll, allowlisted, suspicious, wAsset, wNet, rateBtc, rateLbtc,
+     spendable, probeOk, busy, balance, fee, swapOut, version, asset, network, scid, pub, amount, limit, receivable] => do
+    let scidS ← unhexStr scid
+    let pubS ← unhexStr pub
+    let assetS ← unhexStr asset
+    let netS ← unhexStr network
+    let cfg : NodeCfg := ⟨(← bool? allowNew), (← bool? btcOn), (← bool? lbtcOn), (← nat? minMsat), (← bool? acceptAll),
+      (← bool? allowlisted), (← bool? suspicious), (← unhexStr wAsset), (← unhexStr wNet), (← int? rateBtc),
+      (← int? rateLbtc), (← nat? spendable), (← nat? receivable), (← bool? probeOk), (← bool? busy),
+      (← nat? balance), (← nat? fee)⟩
+    let req : Request := ⟨(← bool? swapOut), (← nat? version), assetS, netS, scidValid scidS, hexLen pubS == some 33,
+      hexLen assetS == some 33, knownNetwork netS, (← nat? amount), (← int? limit)⟩
+    match admit cfg req with
+    | .agreement p => pure s!"agreement {p}"
+    | .cancel reason => pure ("cancel " ++ (if reason == "suspicious" then "not-allowed" else reason))
   | ["scid.cln", s] => do pure (hexStr (clnStyle (← unhexStr s)))
   | ["scid.lnd", s] => do pure (hexStr (lndStyle (← unhexStr s)))
   | ["premium.compute", amt, ppm] => do pure (toString (ppmCompute (← nat? amt) (← int? ppm)))
